@@ -67,6 +67,20 @@ T.update({
          'unchanged in every case and OSError raised when the target is protected; user-file round trip and the constituent names of Array / RaggedArray concretely.',
          'Outside: longer names, symlinked directories, case-folding file systems.'),
 })
+T.update({
+ 'C06': ('for every type x byte order x rank the real readcode() / Array.readcode / readcodelanguages run with SYMBOLIC extents (numbers are rendered as '
+         'placeholders and mapped back to terms); a per-language interpreter (vf/lang/arraycode.py, one per target language, written from the documented '
+         'binary-read / reshape semantics) parses the program - a parse, arity or type failure is "not well-formed" - and z3 decides count = prod(extents), '
+         'dims = extents (row-major) or reversed (column-major), type / endianness tokens, requested path and read-only open mode; offered / withheld against '
+         'the tables parsed from docs/readcode.rst; offset identity lemma by z3 and cvc5.',
+         'Outside: the truth of the foreign-language rules (trusted base, each quoted with its reference); the Python-family rules are validated by executing '
+         'the real snippets with the real NumPy (conformance + replay).'),
+ 'C07': ('the real ragged readcode() with symbolic number of subarrays, values length, atom extents and index row (S <= E, zero-length subarrays included); '
+         'the embedded array reads go through the C06 interpreters, the subarray accessor is evaluated symbolically under each language indexing rules '
+         '(origin, end inclusiveness, axis order, empty ranges / guards) and z3 decides that it selects exactly rows [S, E); example statement = well-formed '
+         'binding of the stated existing subarray; withheld iff values or index type unsupported.',
+         'Outside: the truth of the indexing rules encoded in vf/lang/raggedcode.py (trusted base); numpymemmap / darr snippets are executed in conformance.'),
+})
 CHECKS = {k: dict(text=E1 + v[0], note=BASE_NOTE + v[1]) for k, v in T.items()}
 PENDING = 'check under construction in this session (see DESIGN.md section 4); not claimed until it runs clean'
 NOT_APPLICABLE = {f'C{i:02d}': PENDING for i in range(1, 21) if f'C{i:02d}' not in CHECKS}
